@@ -9,7 +9,7 @@ open Iodine Iodine.Gen Iodine.World
 
 /-- fragment 0 of the upstream packet `out` is in flight towards a server in whose duplicate window it falls, and whose own
 numbers will not be mistaken for its acknowledgement -/
-structure UpStuck (P : Par) (out : List Nat) (w : W) (c0 : Client.Cli) : Prop where
+structure UpStuckS (P : Par) (sl sp : Nat) (out : List Nat) (w : W) (c0 : Client.Cli) : Prop where
   ph : w.cs.ph = .tunnel
   ready : CReady P c0 out 0 0
   cli : w.cs.c = { sentState c0 with sendPingSoon := 0 }
@@ -21,11 +21,13 @@ structure UpStuck (P : Par) (out : List Nat) (w : W) (c0 : Client.Cli) : Prop wh
   win : InWindow (Server.getUser w.srv P.u) c0.outpkt.seqno.toNat 0
   nack : ¬ ((Server.getUser w.srv P.u).inpacket.seqno = c0.outpkt.seqno ∧ (Server.getUser w.srv P.u).inpacket.fragment = 0)
   syncd : (Server.getUser w.srv P.u).outpacket.seqno = c0.inpkt.seqno
-  aged : Aged P (Server.getUser w.srv P.u) c0.datacmc 1
-  paged : PAged P (Server.getUser w.srv P.u) c0.randSeed 1
+  aged : Aged P (Server.getUser w.srv P.u) c0.datacmc sl
+  paged : PAged P (Server.getUser w.srv P.u) c0.randSeed sp
+
+abbrev UpStuck (P : Par) (out : List Nat) (w : W) (c0 : Client.Cli) : Prop := UpStuckS P 1 1 out w c0
 
 /-- the client after the non-matching answer: still sending the same chunk; its clock is `now`, its session refreshed -/
-structure Waiting (P : Par) (out : List Nat) (w : W) (c0 : Client.Cli) : Prop where
+structure WaitingS (P : Par) (sl sp : Nat) (out : List Nat) (w : W) (c0 : Client.Cli) : Prop where
   ph : w.cs.ph = .tunnel
   cst : CStat P w.cs.c
   cli : w.cs.c = ackBook { sentState c0 with sendPingSoon := 0 }
@@ -39,12 +41,15 @@ structure Waiting (P : Par) (out : List Nat) (w : W) (c0 : Client.Cli) : Prop wh
   win : InWindow (Server.getUser w.srv P.u) c0.outpkt.seqno.toNat 0
   nack : ¬ ((Server.getUser w.srv P.u).inpacket.seqno = c0.outpkt.seqno ∧ (Server.getUser w.srv P.u).inpacket.fragment = 0)
   syncd : (Server.getUser w.srv P.u).outpacket.seqno = c0.inpkt.seqno
-  aged : Aged P (Server.getUser w.srv P.u) ((c0.datacmc + 1) % 36) 1
-  paged : PAged P (Server.getUser w.srv P.u) c0.randSeed 1
+  aged : Aged P (Server.getUser w.srv P.u) ((c0.datacmc + 1) % 36) sl
+  paged : PAged P (Server.getUser w.srv P.u) c0.randSeed sp
+
+abbrev Waiting (P : Par) (out : List Nat) (w : W) (c0 : Client.Cli) : Prop := WaitingS P 1 1 out w c0
 
 /-- steps 1 and 2 of a round -/
-theorem stuck_exchange {P : Par} (hP : P.Ok) {out : List Nat} {w : W} {c0 : Client.Cli} (h : UpStuck P out w c0) :
-    ∃ w', (∀ k, promptSteps P.u (k + 2) w = promptSteps P.u k w') ∧ Waiting P out w' c0 ∧ w'.tunS = w.tunS ∧ w'.tunC = w.tunC ∧
+theorem stuck_exchange {P : Par} (hP : P.Ok) {sl sp : Nat} {out : List Nat} {w : W} {c0 : Client.Cli} (h : UpStuckS P sl sp out w c0)
+    (hsl : 1 ≤ sl ∧ sl ≤ 21 := by omega) :
+    ∃ w', (∀ k, promptSteps P.u (k + 2) w = promptSteps P.u k w') ∧ WaitingS P sl sp out w' c0 ∧ w'.tunS = w.tunS ∧ w'.tunC = w.tunC ∧
       (Server.getUser w'.srv P.u).inpacket = (Server.getUser w.srv P.u).inpacket ∧
       (Server.getUser w'.srv P.u).tunIp = (Server.getUser w.srv P.u).tunIp ∧
       (Server.getUser w'.srv P.u).fragsize = (Server.getUser w.srv P.u).fragsize ∧ w'.srv.now = w.srv.now := by
